@@ -361,6 +361,39 @@ Section Binary.
   Lemma bbag_new size : bbag (b_new K V size) = [].
   Proof. reflexivity. Qed.
 
+  (** the package's [verify()] (transcribed as [b_verify]) answers true on every state that
+      satisfies the invariant *)
+  Lemma sl_some_nth (a : arr) i e : sl a i = Some e -> nth_error a i = Some (Some e).
+  Proof. unfold sl. destruct (nth_error a i) as [[x|]|]; congruence. Qed.
+
+  Lemma sl_none_nth (a : arr) i : i < length a -> sl a i = None -> nth_error a i = Some None.
+  Proof.
+    unfold sl. intros Hi. destruct (nth_error a i) as [[x|]|] eqn:E; try congruence.
+    apply nth_error_None in E. lia.
+  Qed.
+
+  Lemma b_verify_ok h : binv h -> b_verify K V cmp h = true.
+  Proof.
+    intros (Hlen & Hf & Ho & Hz & Hnil). unfold b_verify.
+    set (a := b_arr K V h) in *. set (n := b_n K V h) in *.
+    assert (Hkey : forall k c, 1 <= k -> c <= n -> c / 2 = k -> 2 <= c -> key_gt K V cmp a k c = false).
+    { intros k c Hk Hc Hpar Hc2. specialize (Ho c ltac:(lia)). rewrite Hpar in Ho.
+      destruct (Hf k) as [x Hx]; [dlia|]. destruct (Hf c) as [y Hy]; [lia|].
+      rewrite Hx, Hy in Ho. simpl in Ho. unfold key_gt.
+      rewrite (sl_some_nth _ _ _ Hx), (sl_some_nth _ _ _ Hy).
+      rewrite Z.gtb_ltb. apply Z.ltb_ge. exact Ho. }
+    repeat (apply andb_true_iff; split).
+    - unfold is_nil. rewrite (sl_none_nth a 0); [reflexivity | lia | exact Hz].
+    - apply forallb_forall. intros i Hi. apply in_seq in Hi. destruct (Hf i) as [e He]; [lia|].
+      unfold is_full. now rewrite (sl_some_nth _ _ _ He).
+    - apply forallb_forall. intros i Hi. apply in_seq in Hi.
+      unfold is_nil. rewrite (sl_none_nth a i); [reflexivity | lia | apply Hnil; lia].
+    - apply forallb_forall. intros k Hk. apply in_seq in Hk.
+      apply andb_true_iff; split.
+      + destruct (Nat.leb_spec (2 * k) n); [|reflexivity]. rewrite Hkey; [reflexivity | lia | lia | dlia | lia].
+      + destruct (Nat.leb_spec (2 * k + 1) n); [|reflexivity]. rewrite Hkey; [reflexivity | lia | lia | dlia | lia].
+  Qed.
+
   Lemma root_first (a : arr) n : filled a n -> ordered a n -> forall i, 1 <= i <= n -> le_opt (sl a 1) (sl a i).
   Proof.
     intros Hf Ho i. induction i as [i IH] using lt_wf_ind. intros Hi.
